@@ -93,3 +93,19 @@ LIT = Rec("ConstValue", lambda self: OneOf(
     Cls(G.NullValueNode), Cls(G.EnumValueNode, value=NAME),
     Cls(G.ListValueNode, values=TupleOf(self, name="all_lit")),
     Cls(G.ObjectValueNode, fields=TupleOf(Cls(G.ObjectFieldNode, name=NAME_NODE, value=self), name="all_lit_fields"))))
+
+
+V.REG.register(G.DirectiveNode, ["name", "arguments"],
+               build=lambda name=None, arguments=(): G.DirectiveNode(name=name or G.NameNode(value="skip"), arguments=tuple(arguments or ())))
+
+
+PRINT_AST = z3.Function("graphql_print_ast", V.Val, z3.StringSort())   # assumed: print_ast is a function of the node (parse(print_ast(n)) == n)
+
+
+def _print_ast(I, args, kwargs):
+    models._used("graphql.print_ast: uninterpreted text of the node; parse(print_ast(n)) = n up to locations (assumed)")
+    return SV(V.VStr(PRINT_AST(V.lower(args[0]))))
+
+
+from pyvc.val import SV   # noqa
+models.NATIVE[G.print_ast] = _print_ast
